@@ -243,13 +243,11 @@ func (c *Counter) releaseLock(state counterStateBits) {
 			}
 			debugPrintf("releaseLock %s: reset havePtr (extra=%d)\n", c.name, state.extra())
 
-			// Optimization: only bother loading a new pointer
-			// if we have a value to add to it.
-			c.ptr = counterPtr{nil, nil}
-			if state.extra() != 0 {
-				c.ptr = c.file.lookup(c.name)
-				debugPrintf("releaseLock %s: ptr=%v\n", c.name, c.ptr)
-			}
+			// Always load a new pointer: Add only falls back to extra when the
+			// pointer is nil and never retries the lookup, so a nil pointer left
+			// here while the file is open would strand later increments in extra.
+			c.ptr = c.file.lookup(c.name)
+			debugPrintf("releaseLock %s: ptr=%v\n", c.name, c.ptr)
 		}
 
 		if extra := state.extra(); extra != 0 && c.ptr.count != nil {
